@@ -4,7 +4,7 @@ import sys, json
 sys.path.insert(0, '/verif'); sys.path.insert(0, '/repo')
 sys.dont_write_bytecode = True
 from engine import runner
-pid = sys.argv[1].upper(); idx = int(sys.argv[2]); seed = int(sys.argv[3]) if len(sys.argv) > 3 else 0
+pid = sys.argv[1].upper(); idx = int(sys.argv[2]) if sys.argv[2].isdigit() else 0; seed = int(sys.argv[3]) if len(sys.argv) > 3 else 0
 tier = sys.argv[4] if len(sys.argv) > 4 else 'quick'
 prop = runner.load_prop(pid)
 if sys.argv[2].endswith('.json'):
